@@ -163,6 +163,20 @@ def run_check(pid, tier, seed):
     for l, a, b in zip(clines, cimpl, model):
         if not core.same(l, a, b):
             disagreements.append({"line": l, "implementation": a, "model": b})
+    # C20: a call inside a history that disagrees with the stateless model is re-run ALONE in a fresh interpreter; if it
+    # agrees with the model there, the result depends on what was called before - a failing input of C20 itself
+    if pid == "C20" and disagreements:
+        import subprocess
+        for d in sorted(disagreements, key=lambda d: len(d["line"]))[:6]:
+            code = "import sys; sys.path.insert(0, %r); import proto; print(proto.run_impl(%r))" % (HERE, d["line"])
+            try:
+                p = subprocess.run([sys.executable, "-c", code], capture_output=True, text=True, timeout=120, env=dict(os.environ))
+                fresh = p.stdout.strip().split("\n")[-1] if p.returncode == 0 else None
+            except Exception:
+                fresh = None
+            if fresh is not None and core.same(d["line"], fresh, d["model"]) and not core.same(d["line"], d["implementation"], d["model"]):
+                m["failures"].append({"what": "a call returns something else inside a history than alone in a fresh process on equal arguments",
+                                      "line": d["line"], "in_history": d["implementation"][:300], "fresh_process": fresh[:300]})
     # 4. verdict
     known = {k["key"]: k for k in core.load_known() if k["property"] == pid}
     out_lines, violations = [], 0
